@@ -67,7 +67,16 @@ func (id ID) ExtractPublicKey() (crypto.PubKey, error) {
 	if code != mhIdentity {
 		return nil, ErrNoPublicKey
 	}
-	return crypto.UnmarshalPublicKey(digest)
+	pk, err := crypto.UnmarshalPublicKey(digest)
+	if err != nil {
+		return nil, err
+	}
+	// A key has exactly one ID: other encodings of the same key (non-minimal
+	// varints, re-ordered or unknown protobuf fields) are not IDs of that key.
+	if !id.MatchesPublicKey(pk) {
+		return nil, errors.New("peer id is not the canonical id of its embedded public key")
+	}
+	return pk, nil
 }
 
 // IDFromBytes casts a byte slice to the ID type and validates that
